@@ -154,10 +154,22 @@ def disappeared_family(ctx, rng, n):
         opt = "opt_%s.h" % c["id"]
         sc["sources"][opt] = "// optional header\n"
         sc["sources"][c["ins"][0]] = "#maybe %s\n" % opt + sc["sources"][c["ins"][0]]
+        # the same optional header read by further consumers; some consumers' own outputs are gone at the same time (what
+        # the scan finds out about the vanished header while it looks at one of them must not be lost for the others)
+        sharers = [c]
+        for s_ in cons:
+            if s_ is not c and s_["ins"][0] != c["ins"][0] and rng.random() < 0.5:
+                sc["sources"][s_["ins"][0]] = "#maybe %s\n" % opt + sc["sources"][s_["ins"][0]]
+                sharers.append(s_)
         sc["defaults"] = []
         steps = [{"op": "build", "targets": [], "j": 2, "k": 1, "sched": {"mode": "prng", "seed": 1}},
                  {"op": "build", "targets": [], "j": 2, "k": 1, "sched": {"mode": "prng", "seed": 2}},
                  {"op": "rm", "path": opt}]
+        gone_outs = []
+        if len(sharers) > 1 and rng.random() < 0.7:
+            for s_ in rng.sample(sharers, rng.randint(1, len(sharers) - 1)):
+                gone_outs.append(s_["outs"][0])
+                steps.append({"op": "rm", "path": s_["outs"][0]})
         cur = copy.deepcopy(sc)
         del cur["sources"][opt]
         # something else at the same time: touch the source of a producer of one of the consumer's other inputs
@@ -167,16 +179,19 @@ def disappeared_family(ctx, rng, n):
             p_ = rng.choice(others)
             touched = p_["ins"][0]
             steps.append({"op": "touch", "path": touched})
-        steps.append({"op": "build", "targets": rng.choice(([], [c["outs"][0]])), "j": rng.choice((1, 2, 3)), "k": 1,
+        tg = rng.choice(([], [c["outs"][0]]))
+        if len(sharers) > 1 and rng.random() < 0.6:
+            tg = [s_["outs"][0] for s_ in rng.sample(sharers, len(sharers))]       # named one by one, in any order
+        steps.append({"op": "build", "targets": tg, "j": rng.choice((1, 2, 3)), "k": 1,
                       "sched": {"mode": "prng", "seed": rng.randint(1, 10 ** 6)}})
         steps.append(dict(steps[-1], sched={"mode": "prng", "seed": 7}))
-        jobs.append((simlib.scenario_json(sc, steps), sc, cur, c, opt, touched))
+        jobs.append((simlib.scenario_json(sc, steps), sc, cur, (c, sharers, gone_outs), opt, touched))
     res = {}
 
     def handler(scn, results, err):
         res[scn["id"]] = results
     simlib.run_scenarios([j[0] for j in jobs], handler)
-    for scn, sc, cur, c, opt, touched in jobs:
+    for scn, sc, cur, (c, sharers, gone_outs), opt, touched in jobs:
         r = res.get(scn["id"])
         if not r:
             ctx.inconclusive += 1
@@ -199,20 +214,25 @@ def disappeared_family(ctx, rng, n):
         ctx.count("disappeared_dependency_scenarios")
         ctx.nontrivial(("gone", scn["id"]))
         rep = {"scenario": scn, "consumer": c["id"], "deleted": opt, "also_touched": touched}
-        what = "scenario %s: %s (deps=%s%s) had recorded %s, which was then deleted%s" % (
-            scn["id"], c["outs"][0], c["deps"], ", restat" if c["restat"] else "", opt, " while %s was touched" % touched if touched else "")
+        what = "scenario %s: %s (deps=%s%s)%s had recorded %s, which was then deleted%s%s" % (
+            scn["id"], c["outs"][0], c["deps"], ", restat" if c["restat"] else "",
+            " and %s" % [s_["outs"][0] for s_ in sharers[1:]] if len(sharers) > 1 else "", opt, " while %s was touched" % touched if touched else "",
+            " and %s were deleted as well" % gone_outs if gone_outs else "")
+        if len(sharers) > 1:
+            ctx.count("disappeared_dependency_shared_by_several")
         if t3["result"].get("exit") != 0:
             ctx.violation("C10/disappeared-dependency/error", "%s: the build fails: %s" % (what, t3["result"].get("err")), rep)
             continue
         started = [e["o"] for e in t3["events"] if e["e"] == "S"]
-        if c["outs"][0] not in started:
-            ctx.violation("C10/disappeared-dependency/consumer-not-rerun%s" % ("/with-other-change" if touched else ""),
-                          "%s: the build ran %s and exits 0" % (what, started), rep)
-            continue
         graph = model.Graph(cur, {p_: v[1] for p_, v in t3["world"]["files"].items() if p_ in cur["sources"]})
         clean, _ = graph.clean()
         tg3 = scn["steps"][-2]["targets"] or gen.Gen.roots(cur)
         inclosure = graph.closure(tg3)
+        notrun = [s_["outs"][0] for s_ in sharers if s_["id"] in inclosure and s_["outs"][0] not in started]
+        if notrun:
+            ctx.violation("C10/disappeared-dependency/consumer-not-rerun%s%s" % ("/with-other-change" if touched else "", "/shared" if c["outs"][0] in started else ""),
+                          "%s: the build ran %s and exits 0; not run again: %s" % (what, started, notrun), rep)
+            continue
         bad = [o for s_ in cur["stmts"] if s_["kind"] == "cmd" and s_["id"] in inclosure for o in all_outs(s_)
                if t3["world"]["files"].get(o, [0, None])[1] != clean.get(o)]
         if bad:
